@@ -50,6 +50,12 @@ def default_symbols(tape):
     syms["h"] = ["Fun", [REAL], REAL]
     syms["P"] = ["Fun", [INT, BOOL], BOOL]
     syms["Bm"] = bp.ARRAY(INT, BOOL)
+    # a declared (custom) sort: symbols, an array and a function over it
+    U = ["S", "U"]
+    syms["cu0"] = U
+    syms["cu1"] = U
+    syms["hU"] = ["Fun", [U, INT], U]
+    syms["AU"] = bp.ARRAY(INT, U)
     return syms
 
 
@@ -69,6 +75,8 @@ def leaf(tape, sort, ctx):
         return ["bv", tape.draw(1 << sort[1], "rich.bv"), sort[1]]
     if bp.is_array(sort):
         return ["arrayval", sort[1], leaf(tape, sort[2], ctx), []]
+    if bp.is_usort(sort) and syms:
+        return ["sym", tape.choice(syms, "rich.leaf.usym"), sort]
     raise ValueError(sort)
 
 
@@ -98,7 +106,9 @@ def gen(tape, sort, depth, ctx):
         if k == "realrel":
             return [tape.choice(bp.INT_REL + ("=",), "rich.realrel"), gen(tape, REAL, d, ctx), gen(tape, REAL, d, ctx)]
         if k == "eq":
-            srt = tape.choice([BOOL, INT, REAL, STRING], "rich.eq.sort")
+            srt = tape.choice([BOOL, INT, REAL, STRING, ["S", "U"]], "rich.eq.sort")
+            if bp.is_usort(srt) and not ctx.syms_of(srt):
+                srt = INT
             return ["=", gen(tape, srt, d, ctx), gen(tape, srt, d, ctx)]
         if k == "str":
             return [tape.choice(["str.contains", "str.prefixof", "str.suffixof"], "rich.strpred"),
@@ -177,6 +187,21 @@ def gen(tape, sort, depth, ctx):
         return leaf(tape, STRING, ctx)
     if bp.is_bv(sort):
         return bp.gen_term(tape, sort, depth, ctx.bpctx)
+    if bp.is_usort(sort):
+        k = tape.weighted([(3, "leaf"), (1, "uf"), (1, "sel"), (1, "ite")], "rich.usort.kind")
+        if k == "uf":
+            fs = ctx.funs(sort)
+            if fs:
+                n, s = tape.choice(fs, "rich.uf")
+                return ["app", n, s[1], s[2]] + [gen(tape, a, d, ctx) for a in s[1]]
+        if k == "sel":
+            arrs = ctx.arrays(sort)
+            if arrs:
+                n, s = tape.choice(arrs, "rich.arr")
+                return ["select", ["sym", n, s], gen(tape, s[1], d, ctx)]
+        if k == "ite":
+            return ["ite", gen(tape, BOOL, d, ctx), leaf(tape, sort, ctx), leaf(tape, sort, ctx)]
+        return leaf(tape, sort, ctx)
     if bp.is_array(sort):
         k = tape.weighted([(2, "sym"), (2, "store"), (1, "val")], "rich.arr.kind")
         if k == "store":
@@ -191,7 +216,8 @@ def gen(tape, sort, depth, ctx):
                     continue
                 seen.add(repr(kk))
                 pairs.append([kk, gen(tape, sort[2], 0, ctx)])
-            return ["arrayval", sort[1], leaf_const(tape, sort[2]) if not bp.is_array(sort[2]) else leaf(tape, sort[2], ctx), pairs]
+            dflt = leaf(tape, sort[2], ctx) if (bp.is_array(sort[2]) or bp.is_usort(sort[2])) else leaf_const(tape, sort[2])
+            return ["arrayval", sort[1], dflt, pairs]
         return leaf(tape, sort, ctx)
     raise ValueError("richgen: %r" % (sort,))
 
